@@ -2,7 +2,7 @@ import time
 import xml.etree.ElementTree as ET
 
 import lemoncheesecake
-from lemoncheesecake.reporting.backend import FileReportBackend, ReportUnserializerMixin
+from lemoncheesecake.reporting.backend import FileReportBackend, ReportUnserializerMixin, atomic_write
 from lemoncheesecake.reporting.report import (
     Report, Log, Check, Attachment, Url, Step, Result, TestResult, SuiteResult,
     format_time_as_iso8601, parse_iso8601_time
@@ -196,7 +196,7 @@ def serialize_report_as_string(report, indent_level=DEFAULT_INDENT_LEVEL):
 
 def save_report_into_file(report, filename, indent_level=DEFAULT_INDENT_LEVEL):
     content = serialize_report_as_string(report, indent_level)
-    with open(filename, "w") as fh:
+    with atomic_write(filename) as fh:
         fh.write(content)
 
 
